@@ -65,6 +65,9 @@ impl From<SelectionError<NthErr>> for NErr {
         match e {
             SelectionError::ZeroWeight(_) => NErr::ZeroWeight,
             SelectionError::Selector(_) => NErr::Member,
+            // (a maintainer may add variants / mark the enum non_exhaustive)
+            #[allow(unreachable_patterns)]
+            _ => NErr::Member,
         }
     }
 }
@@ -74,6 +77,8 @@ impl From<SelectionError<WeightedPairError<NErr, NErr>>> for NErr {
         match e {
             SelectionError::ZeroWeight(_) => NErr::ZeroWeight,
             SelectionError::Selector(WeightedPairError::A(x) | WeightedPairError::B(x)) => x,
+            #[allow(unreachable_patterns)]
+            _ => NErr::Member,
         }
     }
 }
